@@ -21,6 +21,7 @@ import (
 
 	"github.com/emitter-io/emitter/internal/event/crdt"
 	"github.com/emitter-io/emitter/internal/verifx/engine/core"
+	"github.com/emitter-io/emitter/internal/verifx/engine/sched"
 	"github.com/emitter-io/emitter/internal/verifx/engine/xstate"
 )
 
@@ -722,11 +723,20 @@ func run(c *core.Ctx) {
 		summary[p.backend] = search(c, p, deadline)
 	}
 	c.Set("search", summary)
+	crdt.Now = orig
+	bound := 2
+	if !c.Quick() {
+		bound = 3
+	}
+	c.Set("sched_bound_completed", sched.Drive(c, concOrder, bound))
+	c.Set("sched_schedules", c.Count("schedules"))
+	c.Add("transitions", c.Count("schedules"))
+	c.Add("traces_validated_against_impl", c.Count("schedules"))
 	c.Set("replicas", nRep)
 	c.Set("clock_values", clocks)
 	c.Set("merge_kinds", append(append([]string{}, howNames...), "forward the delta left by the previous merge"))
 	c.Set("reads_per_state", "Get + Has of every key on every replica after every operation (cache-populating); Get, Has, Range(nil,true), Range(prefix,false), Count (+ State.Has, Subscriptions, SubscriptionsOf, ConnectionsOf) in the oracle")
-	c.Assume("operations are applied one at a time (histories, not schedules); concurrency inside one replica is C19/C10's business")
+	c.Assume("the searches apply operations one at a time (histories); two merges and a local update arriving at one volatile replica at the same time are explored separately as statement-level interleavings (part conc); the durable set relies on buntdb's transaction lock, which the scheduler does not instrument")
 	c.Assume("clock values 1..3 stand for arbitrary timestamps: only their order and equality matter to the code under test")
 	c.Assume("entry payload bytes (after the 16-byte time header) are outside the statement and are not compared")
 	c.Assume("merging the live durable State as an argument (panics: *Durable is not *Volatile) and the completeness of deltas are judged by C13/C05; here a delta's ghost set is derived from the times it actually carries")
@@ -747,6 +757,10 @@ func specOf(b *backendDef, depth int, st *stats, deadline time.Time) (*xstate.Sp
 
 // worker is the expander process: worker C04 <tier> expand <backend> <keyMode>
 func worker(c *core.Ctx, args []string) {
+	if len(args) > 0 && args[0] == "sched" {
+		sched.WorkerMain(c, concScenarios(), args[1:])
+		return
+	}
 	if len(args) < 3 || args[0] != "expand" {
 		core.HarnessFailure("C04 worker: bad arguments %v", args)
 	}
@@ -859,6 +873,9 @@ func sampleOf(b *backendDef, ops []opDesc, an []string, path []string) interface
 }
 
 func replay(c *core.Ctx, raw json.RawMessage) {
+	if sched.ReplayCase(c, concScenarios(), raw) {
+		return
+	}
 	var cs caseT
 	if err := json.Unmarshal(raw, &cs); err != nil {
 		core.HarnessFailure("bad replay case: %v", err)
